@@ -12,6 +12,12 @@
 //! * a legacy stub (same code, but `instantiate` writes a pre-0.12 / pre-0.13.1 storage layout)
 //!   for the migration paths.
 // SCENARIO ics20 crate::scen_ics20::Ics20Scen::new()
+// SCENARIO ics20wide crate::scen_ics20::Ics20Scen::new_wide()
+//
+// `ics20wide` (C20): 36 further valid addresses (header field `extra=`; `Allow` only validates the address) that the
+// generator puts on the allow list (at instantiation and through `allow`), plus explicit `query list_allowed` page
+// requests, so ListAllowed exceeds the default and the maximum page size.  The point queries `pallow` cover
+// tokens ++ pool ++ extra on both sides.
 use crate::common::*;
 use cosmwasm_std::testing::{MockApi, MockStorage};
 use cosmwasm_std::{
@@ -360,6 +366,9 @@ pub struct Ics20Scen {
     /// native denom of the form `xcw20:<token0>`
     xdenom: String,
     header_denoms: Option<Vec<String>>,
+    /// `ics20wide`: further addresses for the allow list (C20)
+    extra: Vec<Addr>,
+    wide: bool,
 }
 
 fn build_app() -> IcsApp {
@@ -381,8 +390,16 @@ impl Ics20Scen {
             seed: 0,
             xdenom: String::new(),
             header_denoms: None,
+            extra: vec![],
+            wide: false,
         };
         s.setup();
+        s
+    }
+
+    pub fn new_wide() -> Self {
+        let mut s = Self::new();
+        s.wide = true;
         s
     }
 
@@ -558,23 +575,34 @@ impl Ics20Scen {
             let r: Option<ListAllowedResponse> = self.q(&QueryMsg::ListAllowed { start_after: cursor.clone(), limit });
             match r {
                 Some(p) if !p.allow.is_empty() => {
-                    cursor = Some(p.allow.last().unwrap().contract.clone());
+                    let next = Some(p.allow.last().unwrap().contract.clone());
                     for a in p.allow {
                         allow.push(format!("{}|{}", a.contract, opt_str(&a.gas_limit)));
                     }
+                    if next == cursor {
+                        break; // no progress (a defect in the code under test): do not walk forever
+                    }
+                    cursor = next;
                 }
                 _ => break,
             }
         }
+        // C20 self-check of the listing (items rendered `contract:gas`, the cursor is the contract address)
+        let pagediff = paging_audit("list_allowed", &|c, l| {
+            self.q::<ListAllowedResponse>(&QueryMsg::ListAllowed { start_after: c, limit: l })
+                .map(|r| r.allow.iter().map(|a| format!("{}:{}", a.contract, opt_str(&a.gas_limit))).collect())
+        })
+        .unwrap_or_default();
         let mut pallow = vec![];
-        for a in self.tokens.iter().chain(self.pool.iter()) {
+        for a in self.tokens.iter().chain(self.pool.iter()).chain(self.extra.iter()) {
             let r: Option<AllowedResponse> = self.q(&QueryMsg::Allowed { contract: a.to_string() });
             pallow.push(match r {
                 Some(r) => format!("{}|{}|{}", a, if r.is_allowed { 1 } else { 0 }, opt_str(&r.gas_limit)),
                 None => format!("{a}|?"),
             });
         }
-        let mut out = format!("obs cfg={} gov={} admin={} allow={} pallow={}", cfgs, gov, admin, allow.join(","), pallow.join(","));
+        let mut out =
+            format!("obs pagediff={} cfg={} gov={} admin={} allow={} pallow={}", pagediff, cfgs, gov, admin, allow.join(","), pallow.join(","));
         for ch in CHANS {
             let v = match self.channel(ch) {
                 None => "-".to_string(),
@@ -675,6 +703,15 @@ impl Ics20Scen {
         for t in &self.tokens {
             if rng.chance(2, 3) {
                 v.push(format!("+{}|{}", t, self.gen_gas(rng)));
+            }
+        }
+        if self.wide {
+            // wide: a share (0, 1/4, …, all) of the extra addresses
+            let share = rng.below(5);
+            for x in &self.extra {
+                if rng.below(4) < share {
+                    v.push(format!("+{}|{}", x, self.gen_gas(rng)));
+                }
             }
         }
         if !strict && rng.chance(1, 8) {
@@ -943,8 +980,15 @@ impl Scenario for Ics20Scen {
     fn start(&mut self, seed: u64, trace: u64) -> String {
         self.header_denoms = None;
         self.setup();
+        let api = MockApi::default();
+        self.extra = if self.wide { (0..36).map(|i| api.addr_make(&format!("xtok{i}"))).collect() } else { vec![] };
         let header = format!(
-            "scenario ics20 seed={} trace={} pool={} tokens={} faulty={} denoms={} chans={} fund={}",
+            "scenario {} seed={} trace={} pool={} tokens={} faulty={} denoms={} chans={} fund={}",
+            if self.wide {
+                format!("ics20wide extra={}", self.extra.iter().map(|a| a.to_string()).collect::<Vec<_>>().join(","))
+            } else {
+                "ics20".to_string()
+            },
             seed,
             trace,
             self.pool.iter().map(|a| a.to_string()).collect::<Vec<_>>().join(","),
@@ -964,6 +1008,8 @@ impl Scenario for Ics20Scen {
         self.seed = a.u64("seed");
         let ds = a.list("denoms");
         self.header_denoms = if ds.is_empty() { None } else { Some(ds) };
+        self.extra = a.list("extra").into_iter().map(Addr::unchecked).collect();
+        self.wide = !self.extra.is_empty();
     }
 
     fn gen_op(&mut self, rng: &mut Rng, _step: usize) -> String {
@@ -980,6 +1026,44 @@ impl Scenario for Ics20Scen {
             self.legacy = false;
             let gas = if rng.chance(1, 2) { "-".to_string() } else { self.gen_gas(rng) };
             return format!("migrate gas={gas}");
+        }
+        if self.wide && rng.chance(6, 10) {
+            let listed: Vec<String> = {
+                let mut v = vec![];
+                let mut cursor: Option<String> = None;
+                for _ in 0..100 {
+                    match self.q::<ListAllowedResponse>(&QueryMsg::ListAllowed { start_after: cursor.clone(), limit: Some(30) }) {
+                        Some(p) if !p.allow.is_empty() => {
+                            let next = Some(p.allow.last().unwrap().contract.clone());
+                            v.extend(p.allow.into_iter().map(|a| a.contract));
+                            if next == cursor {
+                                break;
+                            }
+                            cursor = next;
+                        }
+                        _ => break,
+                    }
+                }
+                v
+            };
+            if rng.chance(2, 5) {
+                let lim = *rng.pick(&["-", "0", "1", "9", "10", "11", "29", "30", "31", "32", "100"]);
+                let after = match rng.below(8) {
+                    0 | 1 => "-".to_string(),
+                    2 => format!("+{}", rng.pick(&self.extra)),
+                    3 => "-cosmwasm1m".to_string(),
+                    4 => self.gen_addr(rng),
+                    _ if !listed.is_empty() => format!("+{}", rng.pick(&listed)),
+                    _ => "-".to_string(),
+                };
+                return format!("query list_allowed after={after} limit={lim}");
+            }
+            let admin: Option<cw_controllers::AdminResponse> = self.q(&QueryMsg::Admin {});
+            if let Some(snd) = admin.and_then(|a| a.admin) {
+                let fresh: Vec<&Addr> = self.extra.iter().filter(|x| !listed.contains(&x.to_string())).collect();
+                let c = if !fresh.is_empty() && rng.chance(5, 6) { (*rng.pick(&fresh)).clone() } else { rng.pick(&self.extra).clone() };
+                return format!("exec {snd} allow contract=+{c} gas={}", self.gen_gas(rng));
+            }
         }
         let r = rng.below(100);
         if r < 4 {
